@@ -5,6 +5,7 @@ import (
 	"encoding/xml"
 	"errors"
 	"io"
+	"net/url"
 	"strings"
 )
 
@@ -117,19 +118,28 @@ func isFontObfuscation(algorithm string) bool {
 // indicate DRM if encrypted.
 func isContentFile(uri string) bool {
 	uri = strings.ToLower(uri)
-
-	// Content files
-	if strings.HasSuffix(uri, ".xhtml") ||
-		strings.HasSuffix(uri, ".html") ||
-		strings.HasSuffix(uri, ".htm") ||
-		strings.HasSuffix(uri, ".xml") {
-		return true
+	if decoded, err := url.PathUnescape(uri); err == nil {
+		uri = strings.ToLower(decoded)
+	}
+	if i := strings.IndexAny(uri, "?#"); i >= 0 {
+		uri = uri[:i]
 	}
 
-	// CSS could also indicate DRM
-	if strings.HasSuffix(uri, ".css") {
-		return true
+	// Content documents are identified by their media type in the package
+	// manifest, not by their file name, so any name may be one. Only
+	// resources that clearly are fonts, images, audio or video are not.
+	for _, ext := range nonContentExtensions {
+		if strings.HasSuffix(uri, ext) {
+			return false
+		}
 	}
+	return true
+}
 
-	return false
+// nonContentExtensions lists file name extensions of resources whose
+// encryption does not hide the text of a publication.
+var nonContentExtensions = []string{
+	".otf", ".ttf", ".ttc", ".woff", ".woff2", ".eot", ".pfb", ".pfa",
+	".jpg", ".jpeg", ".png", ".gif", ".bmp", ".webp", ".tif", ".tiff",
+	".mp3", ".mp4", ".m4a", ".m4v", ".ogg", ".oga", ".ogv", ".webm", ".wav", ".aac",
 }
